@@ -108,6 +108,15 @@ def gen_recipes(rng, tier):
     dvals = [p for p in P if isinstance(p, dict) and ('dt' in p or 'd' in p)]
     for l, r in itertools.product(dvals, dvals):
         out.append({'kind': 'override', 'op': rng.choice(OPS)[0], 'l': l, 'r': r})
+    # the falsy values (0, 0.0, False, '') as OVERRIDES against small fractions, integers, texts and each other: an override must reach the
+    # comparison as the value it is, not as a blank
+    falsy = [C.jenc(0), C.jenc(0.0), C.jenc(False), C.jenc('')]
+    others = [C.jenc(v) for v in (0.5, -0.5, 0.25, -0.75, 1, -1, 0, 'a', '', True, 1e-9)]
+    for a in falsy:
+        for b in others:
+            for l, r in ((a, b), (b, a)):
+                for op, _ in (OPS if tier != 'quick' else rng.sample(OPS, 3)):
+                    out.append({'kind': 'override', 'op': op, 'l': l, 'r': r})
     lits = [(p, literal_of(C.jdec(p))) for p in P]
     lits = [(p, s) for p, s in lits if s is not None]
     lp = list(itertools.product(lits, lits))
